@@ -7,6 +7,19 @@ use serde_json::{json, Value};
 use std::collections::{BTreeMap, HashSet};
 use std::io::{BufRead, Write};
 
+/// progress of the running falsifier, for the watchdog in main.rs: bumped on every evaluation and
+/// on every call of the real single-date API, whose case is remembered so that a call that never
+/// returns can be reported with its input
+pub static PROGRESS: std::sync::atomic::AtomicU64 = std::sync::atomic::AtomicU64::new(0);
+pub static CURRENT: std::sync::Mutex<Option<crate::f_policy::DayCase>> = std::sync::Mutex::new(None);
+
+pub fn begin_case(c: &crate::f_policy::DayCase) {
+    if let Ok(mut g) = CURRENT.lock() {
+        *g = Some(c.clone());
+    }
+    PROGRESS.fetch_add(1, std::sync::atomic::Ordering::Relaxed);
+}
+
 pub struct Ctx {
     pub evals: u64,
     pub nontrivial: HashSet<u64>,
@@ -48,6 +61,7 @@ impl Ctx {
     }
     pub fn eval(&mut self) {
         self.evals += 1;
+        PROGRESS.fetch_add(1, std::sync::atomic::Ordering::Relaxed);
     }
     /// record a distinct non-trivial case by its key
     pub fn nontrivial(&mut self, key: &str) {
